@@ -46,6 +46,9 @@ def t_md(params, T):
     return T
 
 
+CURVES = [0]
+
+
 def knots_of(sy, params):
     """levels at which the specific yield or the transmissivity has a kink"""
     out = []
@@ -68,6 +71,13 @@ def check_curve(ctx, params, grid, mean, kappa, et, inp):
         return [float(v) for v in srm.compute_recession_curve(sy, Td, np.array(grid, dtype=float), mean, kappa, et)]
     ob = "compute_recession_curve = model riseCurve at Float on the recorded quad values"
     g = common.any_layout(ctx.rng, np.array(grid, dtype=float))
+    CURVES[0] += 1
+    if g.dtype.kind == "f" and CURVES[0] % 4 == 1:        # every fourth curve
+        # levels read from a single-precision file (netCDF / HDF loggers): the curve is owed on THOSE levels, exactly
+        g = g.astype(np.float32)
+        grid = [float(v) for v in g]
+        inp = dict(inp, grid=grid, grid_dtype="float32")
+        ctx.count("grids_in_single_precision")
     snap_g = common.snapshot(g)
     try:
         with sim.record_quad() as calls:
